@@ -155,7 +155,24 @@ def lean_obligations(ctx, extra_targets=()):
     src = open(os.path.join(LEAN, "Proofs", "Properties", f"{pid}.lean")).read()
     names = re.findall(rf"^theorem\s+({pid}_[A-Za-z0-9_']+)", src, flags=re.M)
     discharged = [n for n in names if res.get(n, (False,))[0]] if ok and not bad else []
+    broken = []
+    if not ok:
+        # name the declarations the build errors fall in (the rest of the module is then unchecked, not refuted)
+        for m in re.finditer(r"error: (?:\./)*(\S+?\.lean):(\d+):\d+", log or ""):
+            rel, ln = m.group(1), int(m.group(2))
+            try:
+                decl = None
+                for i, l in enumerate(open(os.path.join(LEAN, rel)).read().split("\n")[:ln], 1):
+                    mm = re.match(r"\s*(?:private\s+|protected\s+)?(theorem|lemma|def|example|instance|abbrev)\s*([A-Za-z0-9_'.]*)", l)
+                    if mm:
+                        decl = f"{mm.group(1)} {mm.group(2)}".strip()
+                entry = f"{rel}:{ln} in {decl}"
+            except OSError:
+                entry = f"{rel}:{ln}"
+            if entry not in broken:
+                broken.append(entry)
     ctx.proof = {
+        "broken_declarations": broken[:10],
         "build_ok": ok,
         "obligations": names,
         "discharged": discharged,
@@ -353,6 +370,7 @@ def finish(ctx, level_extra=None):
         payload = {}
         if not proof_ok:
             payload["proof_obligations_not_checked"] = ctx.proof["failed"] or ["<build failed>"]
+            payload["broken_declarations"] = ctx.proof.get("broken_declarations")
             payload["forbidden_hits"] = ctx.proof["forbidden_hits"]
             payload["log_tail"] = ctx.proof["log_tail"]
         if unexplained:
